@@ -236,6 +236,7 @@ def run(prog, chk):
     current_shell_stage_rule(prog, chk)
     stage_error_containment_rule(prog, chk)
     job_result_reduction_rule(prog, chk)
+    nested_subshell_grammar_rule(prog, chk)
 
 
 def _sanctioned_edges(b, len_locals=()):
@@ -659,3 +660,57 @@ def job_result_reduction_rule(prog, chk):
 
 def short_fn(fn):
     return fn.split(" as ")[0].lstrip("<").rsplit("::", 1)[-1] if " as " in fn else fn.rsplit("::", 1)[-1]
+
+
+def nested_subshell_grammar_rule(prog, chk):
+    """R12.9 (grammar, read from brush-parser/src/parser/peg.rs on every run): `( ( cmd ) )` is a subshell inside a subshell. The
+    arithmetic command `(( expr ))` may only start at two *adjacent* `(` tokens; a rule that accepts any two `(` operator tokens turns
+    `( ( x=changed ) )` into the arithmetic command `((x=changed))`, evaluated in the invoking shell: the assignment meant for a
+    subshell lands in the parent (and `( ( echo hi ) )` is an arithmetic syntax error)."""
+    import os
+    import peg
+    from extract import REPO
+    chk.rule("R12.9", "grammar: the arithmetic command opens with two adjacent `(` tokens (a contiguity test on their locations); `( (` opens nested subshells")
+    path = os.path.join(REPO, "brush-parser/src/parser/peg.rs")
+    try:
+        G = list(peg.load(path).values())[0]
+    except (OSError, IndexError):
+        G = None
+    if not G or "arithmetic_command" not in G:
+        chk.fail("R12.9", "brush_parser::parser::peg", "grammar-missing", "rule arithmetic_command not found in %s" % path, nontrivial=False)
+        return
+
+    def mentions_contiguity(rule, seen=()):
+        if rule not in G or rule in seen:
+            return False
+        txt = " ".join(t.text for t in G[rule])
+        if "locations_are_contiguous" in txt or ("end" in txt and "start" in txt and "index" in txt and "==" in txt):
+            return True
+        for alt in peg.split_alternatives(G[rule]):
+            for e in peg.elements(alt):
+                if e["kind"] == "call" and e["text"] != rule and e["text"].startswith("arithmetic") and mentions_contiguity(e["text"], seen + (rule,)):
+                    return True
+        return False
+
+    n = 0
+    for alt in peg.split_alternatives(G["arithmetic_command"]):
+        els = [e for e in peg.elements(alt) if e["kind"] != "action"]
+        if not els:
+            continue
+        n += 1
+
+        def is_open(e):
+            return e["kind"] == "call" and e["text"] == "specific_operator" and "".join(t.text for t in e.get("args", [])).strip('"') == "("
+        if len(els) >= 2 and is_open(els[0]) and is_open(els[1]):
+            chk.fail("R12.9", "brush_parser::parser::peg::arithmetic_command", "arithmetic-command-accepts-separated-parens",
+                     "arithmetic_command starts with two independent `(` operator tokens (line %s), adjacent or not: `( ( x=changed ) )` is parsed as `((x=changed))` and "
+                     "runs in the invoking shell — the parent's x becomes 0; `( ( echo hi ) )` is a syntax error (bash: nested subshells)" % (alt[0].line if alt else "?"))
+        elif els[0]["kind"] == "call" and mentions_contiguity(els[0]["text"]):
+            chk.ok("R12.9", "arithmetic-open-is-adjacent", "the opening goes through %s, which tests the two locations for contiguity" % els[0]["text"],
+                   function="brush_parser::parser::peg::arithmetic_command")
+        elif "locations_are_contiguous" in " ".join(t.text for t in alt):
+            chk.ok("R12.9", "arithmetic-open-is-adjacent", "contiguity tested in the alternative itself", function="brush_parser::parser::peg::arithmetic_command")
+        else:
+            chk.fail("R12.9", "brush_parser::parser::peg::arithmetic_command", "arithmetic-open-unrecognised",
+                     "cannot see how arithmetic_command recognises its opening `((` (first element %s)" % els[0]["text"], nontrivial=False)
+    chk.floor("R12.9", "arithmetic_command alternatives", n, 1)
